@@ -25,10 +25,29 @@ What is proved here (about the model `Cedar/SchemaSyntax.lean`, tied to the code
                             entity-or-common reference (shape and tags as in `type_roundtrip_json`, `memberOf` unchanged);
   * `decl_parser_accepts_more`  the forms only the Cedar syntax has (several names, no `=`, a bare path after `in`, `{}`) parse to the
                             expected data (examples).
-NOT modelled (covered only by the four-way differential run of harness/src/c09.rs): the other declarations (enum entities, action
-declarations with `in` / `appliesTo` / context, common-type and namespace declarations), annotations, the lexer and string escapes, the
-collision / unconvertible-shape checks of fmt.rs, JSON (de)serialisation, and everything `ValidatorSchema` construction does after
-name resolution (common-type inlining, cycle detection, hierarchy closure, action entities).
+  * DECLARATION LEVEL, the other declarations and whole fragments (`Cedar/SchemaDecl2.lean`, lemmas `Lemmas/SchemaDecl2.lean`; tied to
+    the code by the `sty print-frag | parse-frag` differential run on whole schemas):
+    `enum_decl_roundtrip`     `entity N enum ["a", …];` reads back as the same enum entry (non-empty list: `enum_nonempty_needed`);
+    `common_decl_roundtrip`   `type N = T;` reads back as N with the entity-or-common form of T (N not a reserved common-type name:
+                              `common_reserved_needed`);
+    `action_decl_roundtrip`   a JSON `actions` entry → `action "N" in [T::"id", …] appliesTo { principal: [..], resource: [..],
+                              context: T };` → JSON = `normAction` of the entry: a parent without type gets `Action`, `memberOf: []`
+                              becomes absent, an absent OR HALF-EMPTY `appliesTo` becomes the empty `ApplySpec` (fmt.rs prints nothing:
+                              `appliesTo_half_empty_lost`, the known finding), a record context keeps its shape with entity-or-common
+                              leaves, a context given by a name becomes a must-be-common reference; hypothesis `CtxOK` (the context is
+                              a record or a name) is needed: `ctxOK_needed`; `action_parser_accepts_more`: the forms only the Cedar
+                              syntax has (bare / several names, single parent, any order of principal/resource/context, trailing
+                              comma, `attributes {}`) and what to_json_schema.rs refuses (empty / missing / duplicate lists);
+    `fragment_roundtrip`      a WHOLE FRAGMENT (empty namespace + named namespaces, each with common types, standard and enum entity
+                              types, actions): parseFragment (printFragmentJ f) = some (normFragment f), with `normFragment` spelled out
+                              (type leaves entity-or-common, the action normal form above, an empty-namespace entry without declarations
+                              absent), under `WFFrag` (names the grammar's `Ident` accepts, no `__cedar`, `namespace_reserved_needed`)
+                              and `SortedFrag` (record attributes in BTreeMap order); non-vacuity: `demoFragment`.
+NOT modelled (covered only by the four-way differential run of harness/src/c09.rs): annotations, the lexer and string escapes, the
+`BTreeMap` collection of the parsed declarations (entries are returned in source order; duplicate declarations / namespaces, which
+`build_namespace_bindings` refuses, are not detected), action `attributes`, records with additional attributes, the collision /
+unconvertible-shape checks of fmt.rs, JSON (de)serialisation, and everything `ValidatorSchema` construction does after name
+resolution (common-type inlining, cycle detection, hierarchy closure, action entities).
 -/
 namespace Cedar.C09
 open Cedar.SchemaSyntax
